@@ -80,6 +80,7 @@ func verifC14Kind(ephemeral bool) string {
 func VerifC14_ConcurrentPeers() {
 	var w *verifC14World
 	var t, c int
+	pre := false // peer 0 starts registered for the topic and the channel
 	verifrt.Atomic(func() {
 		w = verifC14NewWorld()
 		w.wit = 0
@@ -94,6 +95,7 @@ func VerifC14_ConcurrentPeers() {
 		}
 		w.register(1, t, c)
 		if full && verifrt.Choice("pre", 2) == 1 {
+			pre = true
 			w.register(0, t, c)
 		}
 	})
@@ -163,13 +165,26 @@ func VerifC14_ConcurrentPeers() {
 			}
 		}
 		// ephemeral keys that ended up empty: presence is left open unless pinned (see c14.go);
-		// continue from what the implementation chose
+		// continue from what the implementation chose. Pinned: the key named by an UNREGISTER
+		// after which it has no producer is gone - here whenever that holds in BOTH sequential
+		// orders: peer 1's UNREGISTER of the ephemeral topic (peer 0, if it was a producer at
+		// all, unregisters the topic too, so whichever UNREGISTER comes last finds it empty), and
+		// peer 1's UNREGISTER of the ephemeral channel unless peer 0 was a producer of it as well
+		// (then only the order "peer 0 first" has an UNREGISTER naming the empty channel).
 		if t == 1 && m.topicProducers(t) == 0 {
-			m.tkey[t] = w.implTopicKey(t)
+			if op1 == 3 {
+				m.tkey[t] = false
+			} else {
+				m.tkey[t] = w.implTopicKey(t)
+			}
 		}
 		for cc := 0; cc < verifC14NC; cc++ {
 			if cc == 1 && m.chanProducers(t, cc) == 0 {
-				m.ckey[t][cc] = w.implChanKey(t, cc)
+				if op1 == 2 && cc == c && !pre {
+					m.ckey[t][cc] = false
+				} else {
+					m.ckey[t][cc] = w.implChanKey(t, cc)
+				}
 			}
 		}
 		verifrt.Assert(w.registryEqualsModel(), "concurrent-"+name0+"-vs-"+name1+"-equals-the-sequential-outcome")
